@@ -141,11 +141,18 @@ def servedOK (requireAuth exposePprof : Bool) (svc : AuthSvc) (req : Req) : Bool
   | some want => (validAccounts svc req.auth).any (fun acc => mayAllow acc (apiNodeOf req.path) want)
 
 /-- The database resource of a database name: one element below "/database"; the statement only needs that
-different names give different resources, so the spec takes the mapping as a parameter. -/
+different names give different resources, so the spec takes the mapping as a parameter.
+`req.db` is the TARGET database — the one the points go to. Nothing else of the query enters: not `rp`, not
+`precision`, not `consistency`; a write is fine only if the account may write to the endpoint AND to that database. -/
 def wroteOK (dbRes : List Char → Path) (requireAuth : Bool) (svc : AuthSvc) (req : Req) : Bool :=
   !requireAuth ||
   (validAccounts svc req.auth).any (fun acc =>
     mayAllow acc (apiNodeOf req.path) pWrite && mayAllow acc (dbRes req.db) pWrite)
+
+/-- … judged on the database the points were OBSERVED to be handed to the writer for (`target`), whatever the
+request said in `rp` or any other parameter. -/
+def wroteTargetOK (dbRes : List Char → Path) (requireAuth : Bool) (svc : AuthSvc) (req : Req) (target : List Char) : Bool :=
+  wroteOK dbRes requireAuth svc { req with db := target }
 
 /-- Distinct database names never map to the same resource. -/
 def DbInjective (dbRes : List Char → Path) : Prop := ∀ a b, dbRes a = dbRes b → a = b
